@@ -136,6 +136,13 @@ theorem no_help_shortcut_for_launchers (tokens : List String) (cwd : String) (re
 
 /-! ### (c) pure wrappers -/
 
+theorem clusterTakesNext_of_not_dash (flags : List String) (c : String) (h : Py.startsWith c "-" = false) :
+    clusterTakesNext flags c = false := by simp [clusterTakesNext, h]
+
+theorem clusterTakesNext_double_dash (flags : List String) : clusterTakesNext flags "--" = false := by
+  have : Py.startsWith "--" "--" = true := by decide +kernel
+  simp [clusterTakesNext, this]
+
 /-- the plain forms: nothing but the wrapper's own duration and flags is skipped -/
 theorem skip_plain (fwa : WrapOpts) (c : String) (cs : List String)
     (hdur : (fwa.duration && (Py.isDigitStr c || Py.isDigitStr (Py.removeChar c '.') || isDuration c)) = false)
@@ -149,7 +156,7 @@ theorem skip_plain (fwa : WrapOpts) (c : String) (cs : List String)
       have : c = "--" := by simpa using hc
       subst this
       revert hflag; decide
-  simp [skipWrapperArgs, skipWrapperAux, hflag, hne, hfwa, hdur]
+  simp [skipWrapperArgs, skipWrapperAux, hflag, hne, hfwa, hdur, clusterTakesNext_of_not_dash _ _ hflag]
 
 /-- a wrapper that takes no duration (nice, nohup, command, strace …) skips no number: `command 30 x` names the program `30` -/
 theorem skip_no_number (fwa : WrapOpts) (n : String) (cs : List String) (hd : fwa.duration = false)
@@ -162,7 +169,7 @@ theorem skipAux_double_dash (fwa : WrapOpts) (dur : Bool) (cs : List String) (hf
   have h1 : Py.isDigitStr "--" = false := by decide +kernel
   have h2 : Py.isDigitStr (Py.removeChar "--" '.') = false := by decide +kernel
   have h3 : isDuration "--" = false := by decide +kernel
-  simp [skipWrapperAux, h1, h2, h3, hfwa]
+  simp [skipWrapperAux, h1, h2, h3, hfwa, clusterTakesNext_double_dash]
 
 theorem skip_double_dash (fwa : WrapOpts) (cs : List String) (hfwa : "--" ∉ fwa.flags) :
     skipWrapperArgs fwa ("--" :: cs) = cs := skipAux_double_dash fwa _ cs hfwa
@@ -184,7 +191,7 @@ theorem skip_after_duration (fwa : WrapOpts) (c : String) (cs : List String)
       have : c = "--" := by simpa using hc
       subst this
       revert hflag; decide
-  simp [skipWrapperAux, hflag, hne, hfwa]
+  simp [skipWrapperAux, hflag, hne, hfwa, clusterTakesNext_of_not_dash _ _ hflag]
 
 /-- `-n 5`, `-s KILL`: an option of the table takes the next word with it -/
 theorem skip_flag_with_arg (fwa : WrapOpts) (f a : String) (cs : List String) (hf : f ∈ fwa.flags)
@@ -192,11 +199,23 @@ theorem skip_flag_with_arg (fwa : WrapOpts) (f a : String) (cs : List String) (h
     skipWrapperArgs fwa (f :: a :: cs) = skipWrapperAux fwa false fwa.duration cs := by
   simp [skipWrapperArgs, skipWrapperAux, hf, hdur]
 
+/-- `-vk 3`, `-vs KILL`: so does a cluster of short options whose first value-taking letter is its last -/
+theorem skip_cluster_with_arg (fwa : WrapOpts) (f a : String) (cs : List String) (hf : clusterTakesNext fwa.flags f = true)
+    (hdur : (fwa.duration && (Py.isDigitStr f || Py.isDigitStr (Py.removeChar f '.') || isDuration f)) = false) :
+    skipWrapperArgs fwa (f :: a :: cs) = skipWrapperAux fwa false fwa.duration cs := by
+  simp [skipWrapperArgs, skipWrapperAux, hf, hdur]
+
+example : clusterTakesNext ["-s", "--signal", "-k", "--kill-after"] "-vk" = true
+    ∧ clusterTakesNext ["-s", "--signal", "-k", "--kill-after"] "-vk3" = false
+    ∧ clusterTakesNext ["-s", "--signal", "-k", "--kill-after"] "-vsKILL" = false
+    ∧ clusterTakesNext ["-s", "--signal", "-k", "--kill-after"] "-k" = false
+    ∧ clusterTakesNext ["-s", "--signal", "-k", "--kill-after"] "-v" = false := by decide +kernel
+
 theorem skip_flag (fwa : WrapOpts) (f : String) (cs : List String) (hf : Py.startsWith f "-" = true) (hd : f ≠ "--")
-    (hfwa : f ∉ fwa.flags)
+    (hfwa : f ∉ fwa.flags) (hcl : clusterTakesNext fwa.flags f = false)
     (hdur : (fwa.duration && (Py.isDigitStr f || Py.isDigitStr (Py.removeChar f '.') || isDuration f)) = false) :
     skipWrapperArgs fwa (f :: cs) = skipWrapperAux fwa false fwa.duration cs := by
-  simp [skipWrapperArgs, skipWrapperAux, hf, hd, hfwa, hdur]
+  simp [skipWrapperArgs, skipWrapperAux, hf, hd, hfwa, hdur, hcl]
 
 /-- T0: the wrapper loop's DURATION test in the source is the one the model implements: for `timeout` only, the
     pattern `isDuration` transcribes, and at most once -/
@@ -419,33 +438,107 @@ theorem envLoop_suffix (b : Bool) (l : List String) (c : Classification) (hc : e
                     subst hc
                     exact Or.inl ⟨t :: rest, by simp, List.suffix_refl _, rfl⟩
 
-theorem fdAfterExec_suffix (l : List String) (f : String) (inner : List String) (h : fdAfterExec l = some (f, inner)) :
-    inner <:+ l := by
-  induction l with
-  | nil => simp [fdAfterExec] at h
-  | cons t rest ih =>
-    simp only [fdAfterExec] at h
-    split at h
-    · simp only [Option.some.injEq, Prod.mk.injEq] at h
-      rw [← h.2]; exact List.suffix_cons t rest
-    · exact List.IsSuffix.trans (ih h) (List.suffix_cons t rest)
+section Fd
+open Dippy.Generated.H
 
-/-- fd `-x` and `-X`: everything after the first exec flag, re-quoted -/
-theorem fd_inner_suffix (tokens : List String) (hd : (fdClassify tokens).action = "delegate") :
-    ∃ inner, inner ≠ [] ∧ inner <:+ tokens.drop 1 ∧ (fdClassify tokens).innerCommand = some (bashJoin inner) := by
-  by_cases hlen : tokens.length < 2
-  · simp [fdClassify, hlen, allow] at hd
-  · have hdt : tokens.drop 1 = tokens.tail := by simp
-    rw [hdt]
-    cases hfe : fdAfterExec tokens.tail with
-    | none => simp [fdClassify, hlen, hfe, allow] at hd
-    | some fi =>
-      obtain ⟨flag, inner⟩ := fi
-      cases inner with
-      | nil => simp [fdClassify, hlen, hfe, ask] at hd
-      | cons first more =>
-        refine ⟨first :: more, by simp, fdAfterExec_suffix _ _ _ hfe, ?_⟩
-        simp [fdClassify, hlen, hfe, delegate]
+theorem fdClause_rest_le (l : List String) : (fdClause l).2.length ≤ l.length := by
+  induction l with
+  | nil => simp [fdClause]
+  | cons t r ih =>
+    simp only [fdClause]
+    split
+    · simp
+    · simp only [List.length_cons]; omega
+
+/-- the fuel the caller passes (the number of words) is enough: more fuel changes nothing -/
+theorem fdLoop_fuel (f : Nat) (l clauses : List String) (desc : Option String) (h : l.length ≤ f) :
+    fdLoop (f + 1) l clauses desc = fdLoop f l clauses desc := by
+  induction f generalizing l clauses desc with
+  | zero =>
+    cases l with
+    | nil => simp [fdLoop]
+    | cons _ _ => simp at h
+  | succ f ih =>
+    cases l with
+    | nil => simp [fdLoop]
+    | cons t rest =>
+      have hr : rest.length ≤ f := by simpa using h
+      have hc : (fdClause rest).2.length ≤ f := Nat.le_trans (fdClause_rest_le rest) hr
+      rw [fdLoop, fdLoop]
+      simp only
+      split
+      · split
+        · rfl
+        · exact ih _ _ _ hc
+      · exact ih _ _ _ hr
+
+/-- fd: the clauses gathered so far are never dropped – a delegation carries all of them, in order, joined by `;` -/
+theorem fdLoop_keeps (f : Nat) (l clauses : List String) (desc : Option String)
+    (hd : (fdLoop f l clauses desc).action = "delegate") :
+    ∃ extra, (fdLoop f l clauses desc).innerCommand = some (" ; ".intercalate (clauses ++ extra)) := by
+  induction f generalizing l clauses desc with
+  | zero =>
+    simp only [fdLoop, fdFinish] at hd ⊢
+    split at hd
+    · simp [allow] at hd
+    · rename_i hne
+      exact ⟨[], by simp [hne, delegate]⟩
+  | succ f ih =>
+    cases l with
+    | nil =>
+      simp only [fdLoop, fdFinish] at hd ⊢
+      split at hd
+      · simp [allow] at hd
+      · rename_i hne
+        exact ⟨[], by simp [hne, delegate]⟩
+    | cons t rest =>
+      rw [fdLoop] at hd ⊢
+      split at hd
+      · split at hd
+        · simp [ask] at hd
+        · rename_i flag head _ first more hin
+          obtain ⟨extra, he⟩ := ih _ _ _ hd
+          refine ⟨bashJoin (first :: more) :: extra, ?_⟩
+          rw [he]; simp
+      · exact ih _ _ _ hd
+
+/-- fd: an exact `-x`/`-X`/`--exec`/`--exec-batch` adds its clause – the words up to `;` – and the scan goes on after it -/
+theorem fd_exec_step (f : Nat) (t : String) (rest clauses : List String) (desc : Option String)
+    (ht : t ∈ fd_EXEC_FLAGS) (first : String) (more : List String) (hc : (fdClause rest).1 = first :: more) :
+    ∃ d, fdLoop (f + 1) (t :: rest) clauses desc = fdLoop f (fdClause rest).2 (clauses ++ [bashJoin (first :: more)]) d := by
+  have hm : fd_EXEC_FLAGS.contains t = true := by simpa using ht
+  rw [fdLoop]
+  simp only [hm, ↓reduceIte, List.nil_append, hc]
+  exact ⟨_, rfl⟩
+
+/-- fd: a combined or attached short form (`-Hx cmd`, `-xcmd`) is an exec flag too: the attached text starts the command -/
+theorem fd_cluster_step (f : Nat) (t : String) (rest clauses : List String) (desc : Option String)
+    (hx : t ∉ fd_EXEC_FLAGS) (he : fdEqForm t = none) (flag : String) (head : List String) (hc : fdCluster t = some (flag, head))
+    (first : String) (more : List String) (hcl : head ++ (fdClause rest).1 = first :: more) :
+    ∃ d, fdLoop (f + 1) (t :: rest) clauses desc = fdLoop f (fdClause rest).2 (clauses ++ [bashJoin (first :: more)]) d := by
+  rw [fdLoop]
+  simp only [hx, he, hc, hcl, List.contains_eq_mem, decide_false, Bool.false_eq_true, ↓reduceIte]
+  exact ⟨_, rfl⟩
+
+/-- fd: a delegation carries every clause found, nothing else -/
+theorem fd_inner_clauses (tokens : List String) (hd : (fdClassify tokens).action = "delegate") :
+    ∃ cs, (fdClassify tokens).innerCommand = some (" ; ".intercalate cs) := by
+  unfold fdClassify at hd ⊢
+  split at hd
+  · simp [allow] at hd
+  · rename_i hlen
+    simp only [hlen, ↓reduceIte]
+    obtain ⟨extra, he⟩ := fdLoop_keeps _ _ [] none hd
+    exact ⟨extra, by simpa using he⟩
+
+example : (fdClassify ["fd", "-x", "echo", ";", "-x", "rm"]).innerCommand = some "echo ; rm" := by decide +kernel
+example : (fdClassify ["fd", "--exec=rm", "-rf"]).innerCommand = some "rm -rf" := by decide +kernel
+example : (fdClassify ["fd", "-Hx", "rm"]).innerCommand = some "rm" := by decide +kernel
+example : (fdClassify ["fd", "-xrm", "-h"]).innerCommand = some "rm -h" := by decide +kernel
+example : (fdClassify ["fd", "-e", "py", "pat"]).action = "allow" := by decide +kernel
+example : (fdClassify ["fd", "pat", "-X", "grep", "-x", "foo"]).innerCommand = some "grep -x foo" := by decide +kernel
+
+end Fd
 
 theorem uvRunSkip_suffix (b : Bool) (l : List String) : uvRunSkip b l <:+ l := by
   induction l generalizing b with
